@@ -654,6 +654,25 @@ def m_try_into(it, a, ty, callee):
     return it.call('<%s as std::convert::TryFrom<%s>>::try_from' % (m.group(2).strip(), m.group(1).strip()), a, ty)
 
 
+def m_asref_bytes(it, a, ty, callee):
+    """<T as AsRef<[u8]>>::as_ref(&T) for a type parameter / associated type: dispatch on the run-time value"""
+    p = a[0]
+    v = it.load(p) if isinstance(p, Ptr) else p
+    if isinstance(v, Ptr):              # T = &str / &[u8]
+        inner = it.load(v)
+        if isinstance(inner, Seq) and v.win is None:
+            return Ptr(v.cell, v.path, (0, len(inner.fields)))
+        if isinstance(inner, Seq):
+            return v
+        p, v = v, inner
+    if isinstance(v, Seq):
+        return Ptr(p.cell, p.path, (0, len(v.fields))) if p.win is None else p
+    rt = it.runtime_type(v)
+    if rt is None:
+        raise Inconclusive('AsRef<[u8]> on %r' % (v,))
+    return it.call('<%s as std::convert::AsRef<[u8]>>::as_ref' % rt, [p], ty)
+
+
 def m_inspect_err(it, a, ty, callee):
     return a[0]
 
@@ -756,6 +775,7 @@ def install(it):
     A(r'std::result::Result::<.*>::inspect_err::<.*>', m_inspect_err)
     A(r'core::bool::<impl bool>::then::<.*>', m_opt_then)
     A(r'<[A-Z]\w* as std::borrow::Borrow<\[u8\]>>::borrow', m_borrow_bytes)
+    A(r'<(?:[A-Z]\w*|<.*>::Item) as std::convert::AsRef<\[u8\]>>::as_ref', m_asref_bytes)
     A(r'<.* as std::convert::TryInto<.*>>::try_into', m_try_into)
     A(r'<.* as std::convert::Into<.*>>::into', m_into)
     A(r'std::option::Option::<.*>::take', m_opt_take)
